@@ -175,6 +175,15 @@ def trace_inputs(trace, entry=None):
     return vals
 
 
+def run_job_frugal(job, canary=False):
+    """run_job, then drop the work directory of a run that needs no diagnosis (disk: a thorough tier is thousands
+    of runs of 10-20 MB each; VERIF_KEEP_BUILD=1 keeps everything)"""
+    res = run_job(job, canary)
+    if res.get("status") == "pass" and not res.get("failed") and not os.environ.get("VERIF_KEEP_BUILD"):
+        shutil.rmtree(os.path.join(BUILD, job.prop, job.name + (".canary" if canary else "")), ignore_errors=True)
+    return res
+
+
 def run_job(job, canary=False):
     """compile + (instrument) + cbmc; returns a result dict"""
     tag = job.name + (".canary" if canary else "")
@@ -455,7 +464,7 @@ def run_property(prop, jobs, tier, level="proof", assumptions=(), trusted_base=(
             work.append((j, True))
     results = []
     with cf.ThreadPoolExecutor(NCPU) as ex:
-        futs = {ex.submit(run_job, j, c): (j, c) for j, c in work}
+        futs = {ex.submit(run_job_frugal, j, c): (j, c) for j, c in work}
         for fu in cf.as_completed(futs):
             j, c = futs[fu]
             try:
